@@ -216,7 +216,7 @@ def run(tier):
         year = int(d[:4])
         items = [(n, popgen.library_rows(n, year)) for n in popgen.LIBRARY]
         tasks.append((d, items))
-    dev_days = days if thorough else [c[0].isoformat() for c in classes][4::14]
+    dev_days = [c[0].isoformat() for c in classes][1::3] if thorough else [c[0].isoformat() for c in classes][4::14]
     for d in dev_days:
         year = int(d[:4])
         for name in popgen.LIBRARY:
